@@ -1,3 +1,4 @@
+import Hm.C04Whole
 import Hm.C13EndToEnd
 import Hm.C15Gzip
 import Hm.C05Conv
@@ -110,3 +111,4 @@ import Hm.Statements
 #print axioms C13_zlib_stored_blocks
 #print axioms C13_gzip_stored_blocks
 #print axioms C13_level0_stacks
+#print axioms C04_accept_sound
